@@ -3,21 +3,23 @@
    recv {s, n, ok, delivered, lv (rank of the table entry afterwards, -1 for unknown senders)}    send {n, res: "ok"|"error"} *)
 EXTENDS Integers, Sequences, Json, IOUtils, TLC
 Traces == ndJsonDeserialize(IOEnv.TRACE_FILE)
-VARIABLES lastValid, delivered, lastSent, tid, l
-vars == <<lastValid, delivered, lastSent, tid, l>>
+VARIABLES lastValid, delivered, lastSent, wire, tid, l
+vars == <<lastValid, delivered, lastSent, wire, tid, l>>
 S == INSTANCE DsSeq WITH Senders <- 1..3, MaxSeq <- 0
 Ev == Traces[tid].ev[l]
 Max == Traces[tid].max
-TInit == /\ tid \in 1..Len(Traces) /\ l = 1 /\ delivered = <<>> /\ lastSent = Traces[tid].sent0
+TInit == /\ tid \in 1..Len(Traces) /\ l = 1 /\ delivered = <<>> /\ wire = <<>> /\ lastSent = Traces[tid].sent0
          /\ lastValid = [s \in 1..3 |-> Traces[tid].init[s]]
 Step ==
   /\ l <= Len(Traces[tid].ev) /\ l' = l + 1 /\ UNCHANGED tid
   /\ \/ /\ Ev.ev = "recv" /\ S!Recv(Ev.s, Ev.n, Ev.ok = 1)
         /\ (Ev.delivered = 1) <=> S!Accept(Ev.s, Ev.n, Ev.ok = 1)
         /\ Ev.s \in 1..3 => lastValid'[Ev.s] = Ev.lv
-     \/ /\ Ev.ev = "send" /\ Ev.res = "ok" /\ Ev.n > lastSent /\ Ev.n <= Max /\ lastSent' = Ev.n /\ UNCHANGED <<lastValid, delivered>>
-     \/ /\ Ev.ev = "send" /\ Ev.res = "error" /\ lastSent >= Max /\ UNCHANGED <<lastValid, delivered, lastSent>>
-Inv == S!DeliveredIncreasing /\ S!OnlyKnownSenders /\ (lastSent >= Max => lastSent = Max)
+     \/ /\ Ev.ev = "send" /\ Ev.res = "ok" /\ Ev.n > lastSent /\ Ev.n <= Max /\ lastSent' = Ev.n /\ wire' = Append(wire, Ev.n) /\ UNCHANGED <<lastValid, delivered>>
+     \* nothing left the instance: the number (consecutive numbers have consecutive ranks here) is used up or not
+     \/ /\ Ev.ev = "send" /\ Ev.res = "notsent" /\ lastSent < Max /\ lastSent' \in {lastSent, lastSent + 1} /\ UNCHANGED <<lastValid, delivered, wire>>
+     \/ /\ Ev.ev = "send" /\ Ev.res = "error" /\ lastSent >= Max /\ UNCHANGED <<lastValid, delivered, lastSent, wire>>
+Inv == S!DeliveredIncreasing /\ S!OnlyKnownSenders /\ S!WireIncreasing /\ (lastSent >= Max => lastSent = Max)
 \* the invariants are part of the step: a trace leading to a violating state is rejected (and reported), TLC does not abort
 TStep == Step /\ Inv'
 TSpec == TInit /\ [][TStep]_vars
